@@ -1,4 +1,81 @@
-import GristModel.DocSpec
-namespace Grist.Doc
-theorem placeholder_C04 : True := trivial
-end Grist.Doc
+/-
+C04  Failed bundles leave no trace.
+
+`Engine._undo_to_checkpoint` (model: `rollback`) replays the undo actions recorded since the
+checkpoint, in reverse, as doc steps, then truncates `stored` / `direct` / `undo` to the checkpoint
+lengths.  Theorems of this file (names live in `Grist.Doc.C04` because `GristProps.C01` already
+has `Grist.Doc.rollback_restores`):
+
+  C04.rollback_restores                    the document comes back (up to `Same`), lists exactly
+  C04.rollback_restores_after_failed_step  same when the bundle ends with a doc step that fails
+  C04.rollback_lists_exact                 the list bookkeeping alone, for ANY state
+
+Hypotheses `Normal`, `colsDistinct`, `undoExactRun`: see GristProps/C01.lean (counterexamples there).
+-/
+import GristProps.C01
+import GristProofs.DocRedo
+namespace Grist.Doc.C04
+
+theorem rollback_restores {st st' : EState} {steps : List (DocAction × Bool)}
+    (hwf : WF st.doc) (hn : Normal st.doc) (hlen : st.stored.length = st.direct.length)
+    (hargs : ∀ ab ∈ steps, ab.1.rowsPositive ∧ ab.1.colsDistinct)
+    (hex : undoExactRun st.doc (steps.map (·.1)))
+    (h : stepDocs st steps = .ok st') :
+    ∃ st'', rollback st' st.stored.length st.undo.length = .ok st'' ∧ Same st''.doc st.doc ∧
+      st''.stored = st.stored ∧ st''.direct = st.direct ∧ st''.undo = st.undo :=
+  rollback_restores_full hwf hn hlen hargs hex h
+
+/-- A later action fails after earlier ones succeeded: in the model a failing `stepDoc` returns
+    `.error` and leaves the state `st'` reached by the successful prefix as it was (nothing is
+    appended), so the rollback from `st'` restores the checkpoint state. -/
+theorem rollback_restores_after_failed_step {st st' : EState} {steps : List (DocAction × Bool)}
+    {a : DocAction} {b : Bool} {e : String}
+    (hwf : WF st.doc) (hn : Normal st.doc) (hlen : st.stored.length = st.direct.length)
+    (hargs : ∀ ab ∈ steps, ab.1.rowsPositive ∧ ab.1.colsDistinct)
+    (hex : undoExactRun st.doc (steps.map (·.1)))
+    (h : stepDocs st steps = .ok st') (_hfail : stepDoc st' a b = .error e) :
+    stepDocs st (steps ++ [(a, b)]) = .error e ∧
+    ∃ st'', rollback st' st.stored.length st.undo.length = .ok st'' ∧ Same st''.doc st.doc ∧
+      st''.stored = st.stored ∧ st''.direct = st.direct ∧ st''.undo = st.undo := by
+  refine ⟨?_, rollback_restores_full hwf hn hlen hargs hex h⟩
+  simp only [stepDocs, List.foldlM_append, List.foldlM_cons, List.foldlM_nil] at h ⊢
+  rw [h]
+  simp only [bind, Except.bind, _hfail]
+
+/-- The list bookkeeping of a rollback, for any state (no well-formedness needed): whatever the
+    replay appended is cut off again. -/
+theorem rollback_lists_exact {st st'' : EState} {ls lu : Nat}
+    (h : rollback st ls lu = .ok st'') (h1 : ls ≤ st.stored.length) (h2 : ls ≤ st.direct.length)
+    (h3 : lu ≤ st.undo.length) :
+    st''.stored = st.stored.take ls ∧ st''.direct = st.direct.take ls ∧
+      st''.undo = st.undo.take lu :=
+  rollback_lists_exact_full h h1 h2 h3
+
+/-! ### non-vacuity: the example document of C01, six successful steps, then a failing one -/
+
+example : ∃ st' e st'', stepDocs { doc := exDoc } (exActs.map (·, true)) = .ok st' ∧
+    stepDoc st' (.addColumn "T" "C" exInfo) true = .error e ∧
+    rollback st' 0 0 = .ok st'' ∧ Same st''.doc exDoc ∧ st''.stored = [] ∧ st''.direct = [] ∧
+    st''.undo = [] ∧
+    st''.stored = st'.stored.take 0 := by
+  have h : stepDocs { doc := exDoc } (exActs.map (·, true)) = .ok _ := rfl
+  have hargs : ∀ ab ∈ exActs.map (·, true), ab.1.rowsPositive ∧ ab.1.colsDistinct := by
+    intro ab hab
+    obtain ⟨a, ha, rfl⟩ := List.mem_map.1 hab
+    exact exActs_args a ha
+  have hex : undoExactRun exDoc ((exActs.map (·, true)).map (·.1)) := by
+    apply undoExactRun_of_safe
+    intro a ha
+    simp only [List.map_map, List.mem_map, Function.comp_apply] at ha
+    obtain ⟨b, hb, rfl⟩ := ha
+    exact exActs_safe b hb
+  have hfail : stepDoc _ (.addColumn "T" "C" exInfo) true = .error "AssertionError" :=
+    (rfl : stepDoc (match stepDocs { doc := exDoc } (exActs.map (·, true)) with
+      | .ok s => s | .error _ => { doc := [] }) (.addColumn "T" "C" exInfo) true = _)
+  obtain ⟨_, st'', h1, h2, h3, h4, h5⟩ :=
+    rollback_restores_after_failed_step (st := { doc := exDoc }) exDoc_WF exDoc_Normal rfl hargs hex
+      h hfail
+  have hl := rollback_lists_exact h1 (Nat.zero_le _) (Nat.zero_le _) (Nat.zero_le _)
+  exact ⟨_, _, st'', h, hfail, h1, h2, h3, h4, h5, hl.1⟩
+
+end Grist.Doc.C04
